@@ -248,6 +248,11 @@ func c02Run(c *core.Ctx, i int) {
 		if k == 7 {
 			c.Cover("stream", "cli-read")
 			c02CLIRead(c)
+			// and: stores into a character of a string reached through elements / fields (rejected, or sound)
+			src := nestedStringStoreSources[r.Intn(len(nestedStringStoreSources))]
+			c.Cover("stream", "nested-string-store")
+			soundRun(c, src, "nested string element store")
+			soundRun(c, selfEqualitySource(r), "self-equality family")
 			return
 		}
 		f := fams[k]
